@@ -74,12 +74,14 @@ LEMMAS = [('VerifC02HexEscapes', 'useHexEscapes'), ('VerifC02Quotes', 'escapeDou
           ('VerifC02Outermost', 'removeOutermostNonCapturingGroup')]
 
 
-def lemma_jobs(N, excl, onl, names=None, heavyN=None, deep=0):
+def lemma_jobs(N, excl, onl, names=None, heavyN=None, deep=0, hexN=6):
     jobs = []
     for h, grp in LEMMAS:
         if names and h not in names:
             continue
         n = N if h != 'VerifC02FlagGroups' or heavyN is None else heavyN
+        if h == 'VerifC02HexEscapes':
+            n = min(n, hexN)      # fmt.Sprintf per rune: the most expensive lemma per byte
         # all printable bytes up to n; beyond that (deep) the representative alphabet (see c02Alphabet in the harness)
         extra = deep if (h not in ('VerifC02FlagGroups', 'VerifC02HexEscapes')) else 0
         for L in range(0, n + extra + 1):
@@ -118,9 +120,9 @@ def main(tier):
                        'rassemble.Join / regexp/syntax are not encoded; "parses as RE2" is decided on the translation-validation family of C01, not here',
                        'non-ASCII (2..4 byte UTF-8) input to useHexEscapes is outside this bound']
     deep = 4 if tier == 'quick' else 7
-    jobs = lemma_jobs(N, exclude, only, heavyN=heavy, deep=deep)
+    jobs = lemma_jobs(N, exclude, only, heavyN=heavy, deep=deep, hexN=6 if tier == 'quick' else 8)
     jobs.append(('regex/operators.VerifC02FlagsPrefix', dict(unwind=12, hooks=dict(HOOKS), timeout_ms=60000)))
-    rs, viol = ck.run('pass-lemmas', jobs, bounds={'text_len': '0..%d over all printable ASCII (flag-group lemma 0..%d), %d..%d over the representative alphabet' % (N, heavy, N + 1, N + deep), 'flag_sets': 'all subsets of {i,s}, all map iteration orders'})
+    rs, viol = ck.run('pass-lemmas', jobs, bounds={'text_len': '0..%d over all printable ASCII (flag-group lemma 0..%d, useHexEscapes 0..%d over all ASCII), %d..%d over the representative alphabet' % (N, heavy, 6 if tier == 'quick' else 8, N + 1, N + deep), 'flag_sets': 'all subsets of {i,s}, all map iteration orders'})
     ck.triage(viol)
     sj, sb = shaped_jobs(tier, exclude, only)
     ck.assumptions.append('flag-group lemma, deeper jobs: text with a skeleton (free text, opener, free text, optional ")", free text) over a representative alphabet: every byte comparison in the passes and predicates is against a constant of that alphabet, other printable bytes are interchangeable')
